@@ -4,7 +4,7 @@ the model).  Every random choice derives from one random.Random instance.
 The generator keeps a rough picture of what is registered where, only to steer
 generation towards mostly-valid graphs with deliberate hazards; it is never
 used as an oracle."""
-import random
+import random, copy
 
 NSTRUCT = 16
 IFACES = [16, 17, 18, 19]
@@ -491,6 +491,69 @@ if __name__ == "__main__":
     name, seed, count = sys.argv[1], int(sys.argv[2]), int(sys.argv[3])
     for c in generate(name, seed, count):
         print(json.dumps(c))
+
+
+# ---------------------------------------------------------------- re-entrant user code (C02)
+
+def result_keys(fn):
+    out = []
+
+    def walk(rs):
+        for r in rs:
+            if r["k"] == "obj":
+                walk(r["fields"])
+            else:
+                out.append(r)
+    walk(fn.get("results") or [])
+    return out
+
+
+def generate_reentrant(seed, count):
+    """core histories in which some constructors / decorators call Invoke on
+    the container from inside their own body (harness field `nested`): the
+    nested function asks for one of the body's own results, for something an
+    existing consumer of the history asks for, or both.  The model has no
+    re-entrant user code: these histories are only run through the checker on
+    the implementation's trace."""
+    rng = random.Random(f"reentrant:{seed}")
+    prof = profile("singleton")
+    prof["_name"] = "reentrant"
+    prof.update(p_fault=0.05, w_invoke=8, n_types=4, p_dry=0.0)
+    out = []
+    for i in range(count):
+        g = Gen(rng, prof)
+        c = g.gen_case(f"reentrant-{seed}-{i}")
+        fns = {f["id"]: f for f in c["fns"]}
+        reg = [o["fn"] for o in c["ops"] if o["op"] in ("provide", "decorate")]
+        inv = [o["fn"] for o in c["ops"] if o["op"] == "invoke"]
+        nsc = 1 + sum(1 for o in c["ops"] if o["op"] == "scope")
+        nid = max(fns) + 1 if fns else 0
+        if not reg:
+            out.append(c)
+            continue
+        for fid in rng.sample(reg, min(len(reg), rng.randint(1, 3))):
+            f = fns[fid]
+            params = []
+            own = result_keys(f)
+            mode = rng.random()
+            if own and mode < 0.7:
+                r = rng.choice(own)
+                if r["k"] == "single":
+                    t = rng.choice(r.get("as") or [r["ty"]]) if rng.random() < 0.3 else r["ty"]
+                    params.append(dict(k="single", ty=t, name=r.get("name", 0), opt=False))
+                else:
+                    params.append(dict(k="obj", fields=[dict(k="group", ty=r["ty"], group=r["group"], soft=rng.random() < 0.3)]))
+            if inv and (mode >= 0.4 or not params):
+                src = fns[rng.choice(inv)]
+                params += copy.deepcopy(src["params"])[:2]
+            if not params:
+                continue
+            fns[nid] = dict(id=nid, params=params, results=[], err=False)
+            c["fns"].append(fns[nid])
+            f.setdefault("nested", []).append(dict(exec=0 if rng.random() < 0.8 else 1, scope=rng.randrange(nsc), fn=nid))
+            nid += 1
+        out.append(c)
+    return out
 
 
 # ---------------------------------------------------------------- viz profile (declared functions)
